@@ -667,7 +667,7 @@ func (ex *Exec) fieldStep(st *State, cur *Val, f *types.Var, pos token.Pos) *Val
 		ex.nilCheck(st, cur, pos, "field "+f.Name())
 		t := ex.readField(st, cur.Term, base, f.Name(), f.Type())
 		v := &Val{T: f.Type(), Term: t, Note: "field:" + f.Name()}
-		ex.fieldReadFacts(st, base, f, v)
+		ex.fieldReadFacts(st, base, f, v, cur.Term)
 		return v
 	}
 	v := &Val{T: f.Type(), Term: ex.fieldOfVal(cur, f)}
@@ -676,10 +676,17 @@ func (ex *Exec) fieldStep(st *State, cur *Val, f *types.Var, pos token.Pos) *Val
 }
 
 // fieldReadFacts assumes type invariants at a heap read.
-func (ex *Exec) fieldReadFacts(st *State, structT types.Type, f *types.Var, v *Val) {
+// The nonnil invariant is not assumed for an object this very function is
+// still constructing (it is an obligation when the object is returned).
+func (ex *Exec) fieldReadFacts(st *State, structT types.Type, f *types.Var, v *Val, ref *Term) {
 	ex.wf(st, v)
 	if ts := ex.typeSpecFor(structT); ts != nil && ts.NonNil[f.Name()] && isRefLike(f.Type()) {
-		st.assume(gt(v.Term, intLit(0)))
+		if ex.entryAlloc == nil {
+			st.assume(gt(v.Term, intLit(0)))
+			return
+		}
+		lit := ex.readField(st, ref, structT, "$lit", types.Typ[types.Bool])
+		st.assume(implies(not(and(lit, ge(ref, ex.entryAlloc))), gt(v.Term, intLit(0))))
 	}
 }
 
@@ -1090,6 +1097,17 @@ func (ex *Exec) compositeLit(st *State, e *ast.CompositeLit, addr bool) *Val {
 					v = &Val{T: f.Type(), Term: ex.funcRef(st, v)}
 				}
 				ex.writeField(st, ref, t, f.Name(), f.Type(), v.Term)
+			}
+			// ghost fields of a freshly allocated struct start at their zero value
+			if ts := ex.typeSpecFor(t); ts != nil {
+				if len(ts.NonNil) > 0 {
+					// constructed here: its nonnil fields are checked when it is returned
+					ex.writeField(st, ref, t, "$lit", types.Typ[types.Bool], tTrue)
+				}
+				for _, g := range ts.Ghosts {
+					gt := ex.parseSpecType(g.Type, ex.unitOfType(t))
+					ex.writeField(st, ref, t, g.Name, gt, ex.zero(gt).Term)
+				}
 			}
 			return &Val{T: types.NewPointer(t), Term: ref}
 		}
